@@ -113,6 +113,13 @@ CHECKS['C16'] = dict(
          'renaming per table else unchanged, and that exactly NewFieldName/OutFileName are dropped with order and lines kept; (c) for every mapped name the EEMS 2.0 rendering (with/without NewFieldName/OutFileName, pure or mixed with MPilot-style commands) and its MPilot translation are loaded by the real from_source and compared structurally; (d) version detection across parse sequences.',
     note='Trusted: z3 strings; EEMS_COMMANDS wrapped for symbolic keys; results of the two programs are equal because the programs are structurally identical (evaluation itself is C02). Known findings: SCORERANGEBENEFIT/COST have no MPilot counterpart (known_findings.json).',
     ref='DESIGN.md §4 C16')
+CHECKS['C15'] = dict(
+    technique='z3 regex lemmas on the live lexer (safe-class strings and repr(float) texts are single tokens) + solver-produced witnesses of every class outside the safe language, round-tripped through the real to_string/from_source',
+    text='Two solver-backed layers: (1) validity lemmas on the live master regex: every safe-class string written between double quotes is exactly one STRING token and every text of repr(float)\'s language is exactly one FLOAT token (unsat within the length bound); '
+         '(2) for 15 classes of strings outside the safe language (quotes, backslashes, escape-like sequences, non-ASCII, line breaks, delimiters, comment sign, number/boolean look-alikes ...) z3 produces witnesses that are put into programs through the API, through source text, inside lists and as metadata values, '
+         'serialised by the real to_string(), re-loaded by the real from_source() and compared argument by argument (cleaned values) and by execution result; likewise repr(float) witnesses and extreme numbers, 9 structure families (references by object, nested lists, metadata order, fixed point) and an EEMS model run before/after.',
+    note='Trusted: z3 regex; S-repr contract; the serialiser itself runs on concrete witnesses (C-level str.format cannot be executed symbolically) - stated as a bound in the evidence.',
+    ref='DESIGN.md §4 C15')
 NOT_YET = {}
 ALL = ['C%02d' % i for i in range(1, 21)]
 
